@@ -392,7 +392,8 @@ impl MetadataBlockData {
     /// assert_eq!(&[0x34, 0x56], sink.as_slice());
     /// ```
     pub fn new_unknown(tag: u8, data: &[u8]) -> Result<Self, VerifyError> {
-        verify_range!("tag", tag, 0..=126)?;
+        // 0 is the type of STREAMINFO (such a block would be read back as one), 127 is invalid.
+        verify_range!("tag", tag, 1..=126)?;
         Ok(Self::Unknown {
             typetag: tag,
             data: data.to_owned(),
